@@ -338,6 +338,22 @@ def run_gate_native(run: Run, plugins: List[str], tmp: str) -> int:
     import concurrent.futures as cf
 
     jobs = []
+    # the same violation in a file that is not plain JSON (comments, a trailing comma, a NaN literal): whatever a lenient reader makes of
+    # such a file, a document that violates the schema must not reach a plugin
+    if edits:
+        vname, vdoc = edits[0]
+        text = json.dumps(vdoc, indent=1)
+        dressed = {
+            "with a // comment line": "// edited by hand\n" + text,
+            "with a /* */ comment": text.replace("{", "{ /* generated */", 1),
+            "with a trailing comma": text.rstrip()[:-1].rstrip() + ",\n}",
+            "with a NaN literal": text.replace('"metaData": {', '"metaData": {"verifNaN": NaN, ', 1),
+        }
+        for di, (dname, dtext) in enumerate(dressed.items()):
+            badp = os.path.join(tmp, f"dressed{di}.json")
+            open(badp, "w", encoding="utf-8").write(dtext)
+            for plugin in plugins[:2]:
+                jobs.append((f"{vname}, {dname}", plugin, [badp], "first"))
     for ei, (name, d) in enumerate(edits):
         bad = os.path.join(tmp, f"bad{ei}.json")
         json.dump(d, open(bad, "w"))
@@ -453,9 +469,34 @@ def main(argv: List[str]) -> int:
                 if eq:
                     return {"observed": f"documents differing in {'.'.join(map(str, path))}.{f} load to models that compare equal", "edited_path": list(path), "field": f, "old": node.get(f), "new": n2.get(f)}
                 break
+        # the same value under two different optional fields (everything else equal): which field carries it is part of the structure
+        addable = [f for f in structural if f in ADDABLE]
+        for f in addable:
+            for g in addable:
+                if f == g or type(ADDABLE[f]) is not type(ADDABLE[g]):
+                    continue
+                path = next((p_ for p_ in paths[:200] if f not in at(doc, p_) and g not in at(doc, p_)), None)
+                if path is None:
+                    continue
+                da, db = copy.deepcopy(doc), copy.deepcopy(doc)
+                at(da, path)[f] = copy.deepcopy(ADDABLE[f])
+                at(db, path)[g] = copy.deepcopy(ADDABLE[f])
+                try:
+                    ma, mb = model.LSPModel(**da), model.LSPModel(**db)
+                except Exception:
+                    continue
+                try:
+                    eq = ma == mb
+                except Exception as e:  # noqa
+                    return {"observed": f"comparison raises {type(e).__name__}: {e}", "edited_path": list(path), "field": f"{f} vs {g}"}
+                if eq:
+                    return {"observed": f"a document with {'.'.join(map(str, path))}.{f} = {ADDABLE[f]!r} and one with the same value under .{g} instead load to models that compare equal", "edited_path": list(path), "field": f"{f} vs {g}"}
         return None
 
     for fi, contract, label, meta in items:
+        if fi is None:
+            run.notes.append(f"{label}: {meta['origin']}; the native (class, structural field) comparison below decides (bounded)")
+            continue
 
         def on_fail(o, label=label, contract=contract, meta=meta):
             w = native_eq_replay(meta["class"], meta["structural"])
@@ -466,7 +507,7 @@ def main(argv: List[str]) -> int:
 
         verify(run, stats, world, interp, fi, contract, label, on_fail, lambda msg, label=label: run.notes.append(f"{label}: outside the verified subset ({msg}); the native (class, structural field) comparison below stands in (bounded)"))
     # every model class that can occur in a loaded model has a hand-written __eq__ under contract
-    under = {m["class"] for _, _, _, m in items}
+    under = {m["class"] for _, _, _, m in items if not m["origin"].startswith("not defined")}
     for cname in sorted(set(KIND_CLASS.values()) | {"LSPModel", "MetaData", "Request", "Notification", "Structure", "Enum", "EnumItem", "EnumValueType", "TypeAlias", "Property", "LiteralValue", "BaseMapKeyType", "ReferenceMapKeyType"}):
         tab(cname in under, f"{MODEL_REL}::{cname}.__eq__:exists", f"model class {cname} has no hand-written __eq__ (attrs' generated one would compare the random id_)", found=False)
 
@@ -597,6 +638,28 @@ def main(argv: List[str]) -> int:
             tab(False, "schema:Enumeration.values:value-type", f"an enumeration of base type integer with a string-valued entry is schema-valid but the loader rejects it: {type(e).__name__}: {str(e)[:120]}", document=mism)
     except _js.ValidationError:
         tab(True, "schema:Enumeration.values:value-type", "")  # the schema excludes it: nothing to load
+    # repeated entries: a list in the document is a list in the model - same length, same order, also when two entries are equal or
+    # differ only in their documentation
+    R = {"kind": "reference", "name": "A"}
+    L1 = {"kind": "literal", "value": {"properties": [{"name": "p", "type": {"kind": "base", "name": "string"}, "documentation": "first"}]}}
+    L2 = {"kind": "literal", "value": {"properties": [{"name": "p", "type": {"kind": "base", "name": "string"}, "documentation": "second"}]}}
+    rep = {
+        "metaData": {"version": "0"}, "requests": [], "notifications": [], "enumerations": [],
+        "structures": [
+            {"name": "A", "properties": []},
+            {"name": "B", "properties": [{"name": "u", "type": {"kind": "or", "items": [R, R]}}, {"name": "v", "type": {"kind": "or", "items": [L1, L2]}}, {"name": "w", "type": {"kind": "and", "items": [R, R]}}, {"name": "t", "type": {"kind": "tuple", "items": [R, R]}}], "extends": [R, R], "mixins": [R, dict(R)]},
+            {"name": "A", "properties": [], "documentation": "declared twice"},
+        ],
+        "typeAliases": [{"name": "T", "type": {"kind": "or", "items": [R, R, R]}}, {"name": "T", "type": {"kind": "or", "items": [R, R, R]}}],
+    }
+    try:
+        _js.validate(rep, rooted_schema)
+        rbr = read_back(model.LSPModel(**copy.deepcopy(rep)))
+        tab(drop_empty_defaults(rbr) == drop_empty_defaults(rep), "load:read-back:repeated-entries", "a document with repeated (equal, or equal up to documentation) entries in or / and / tuple items, extends, mixins or a section does not read back as written", first_difference=_first_diff(drop_empty_defaults(rep), drop_empty_defaults(rbr)), document=rep)
+    except _js.ValidationError as e:
+        run.crash(f"repeated-entries document is not schema-valid: {str(e)[:200]}")
+    except Exception as e:  # noqa
+        tab(False, "load:read-back:repeated-entries", f"a schema-valid document with repeated entries does not load: {type(e).__name__}: {str(e)[:200]}", document=rep)
     T1, T2 = {"kind": "base", "name": "string"}, {"kind": "reference", "name": "Position"}
     forms = {"absent": None, "empty-list": [], "one-in-list": [T1], "single": T1, "two-in-list": [T1, T2]}
 
